@@ -433,3 +433,107 @@ def gen_rw_program(rng, path, nprocs, step0=0, hints='-', fill=None, reopen=True
         p.tags.add('recvars')
     p.vars = vars_
     return p
+
+
+def gen_nb_program(rng, path, nprocs, hints='-', fmt=None, bput=True):
+    """nonblocking program: every rank posts a few write-disjoint iput/bput requests and non-overlapping iget
+    requests, completes them with wait (full id list in posting order) or waitall by kind, then reads everything
+    back.  Deliberately stays away from the request patterns with known library defects that belong to C02/C05/C13
+    (reordered or partial id lists, overlapping igets in one wait, non-LIFO bput completion)."""
+    fmt = fmt or rng.choice([1, 2, 5])
+    p = Prog(path, nprocs)
+    p.all('create %s %d clobber %s' % (path, fmt, hints))
+    dims, hasrec, vars_ = gen_schema(rng, fmt, maxlen=6)
+    vars_ = [v for v in vars_ if v.dims] or vars_
+    emit_define(p, dims, hasrec, vars_, rng, 'none')
+    p.all('enddef')
+    vs = ValueSource(rng)
+    numrecs = 0
+    written = {}
+    reqn = 0
+    for rnd in range(rng.range(2, 3)):
+        coll = rng.chance(1, 2)
+        if not coll:
+            p.all('begin_indep')
+        if bput and rng.chance(1, 2):
+            p.all('attach 4096')
+            use_b = True
+        else:
+            use_b = False
+        # one logical region per round, split over the ranks; each rank posts its part as 1-2 requests
+        v = rng.choice([x for x in vars_ if x.dims] or vars_)
+        if not v.dims:
+            if use_b:
+                p.all('detach')
+            if not coll:
+                p.all('end_indep')
+            continue
+        nr = (rng.range(1, 3) + (numrecs if rng.chance(1, 2) else 0)) if v.isrec else numrecs
+        shape = shape_of(v, max(nr, 1))
+        st, ct, sd = rand_region(rng, shape, allow_stride=True)
+        cells = region_cells(st, ct, sd)
+        cellvals = dict(zip(cells, vs.take(len(cells))))
+        parts = split_region(rng, st, ct, sd, nprocs)
+        names = {r: [] for r in range(nprocs)}
+        texts = {}
+        mt = rng.choice(MT_FOR[v.xt])
+        for r, part in enumerate(parts):
+            if part is None:
+                continue
+            pst, pct, psd = part
+            vals = [cellvals[c] for c in region_cells(pst, pct, psd)]
+            kind = 'bput' if (use_b and rng.chance(2, 3)) else 'iput'
+            form = 'vars' if any(k != 1 for k in psd) else rng.choice(['vara', 'vars'])
+            reqn += 1
+            nm = 'q%d' % reqn
+            names[r].append(nm)
+            texts[r] = nb_text(kind, nm, form, v, mt, rng.choice(['c', 't', 'v2']) if kind == 'iput' else rng.choice(['c', 't']), pst, pct, psd, None, vals)
+        if texts:
+            p.per_rank(texts)
+        p.all('inq_nreqs')
+        # complete
+        how = rng.choice(['list', 'all', 'put'])
+        if how == 'list':
+            p.per_rank({r: 'wait %s %d %s' % ('c' if coll else 'i', len(names[r]), ' '.join(names[r])) for r in range(nprocs)})
+        else:
+            p.all('waitall %s %s' % ('c' if coll else 'i', 'ALL' if how == 'all' else 'PUT'))
+        p.all('inq_nreqs')
+        written.setdefault(v.name, set()).update(cells)
+        if v.isrec:
+            numrecs = max(numrecs, st[0] + (ct[0] - 1) * sd[0] + 1)
+        if use_b:
+            p.all('inq_buf')
+            p.all('detach')
+        p.all('barrier')
+        if not coll:
+            p.all('end_indep')
+        p.all('sync')
+        if hasrec:
+            p.all('inq_numrecs')
+        # nonblocking reads of what is written so far: each rank one iget on its own sub-region
+        if all(n > 0 for n in shape_of(v, numrecs)):
+            if not coll:
+                p.all('begin_indep')
+            texts, rn = {}, {}
+            for r in range(nprocs):
+                rst, rct, rsd = rand_region(rng, shape_of(v, numrecs))
+                allw = all(c in written.get(v.name, set()) for c in region_cells(rst, rct, rsd))
+                reqn += 1
+                nm = 'g%d' % reqn
+                rn[r] = nm
+                texts[r] = nb_text('iget', nm, 'vars', v, (rng.choice(MT_FOR[v.xt]) if allw else NATIVE[v.xt]), rng.choice(['c', 't', 'v2']), rst, rct, rsd, None, None)
+            p.per_rank(texts)
+            p.per_rank({r: 'wait %s 1 %s' % ('c' if coll else 'i', rn[r]) for r in range(nprocs)})
+            p.all('barrier')
+            if not coll:
+                p.all('end_indep')
+    p.all('close')
+    p.all('open %s r -' % path)
+    if hasrec:
+        p.all('inq_numrecs')
+    for v in vars_:
+        if all(n > 0 for n in shape_of(v, numrecs)):
+            p.all('get var c %s %s c - - - -' % (v.name, NATIVE[v.xt]))
+    p.all('close')
+    p.tags.add('nonblocking')
+    return p
